@@ -11,7 +11,7 @@ import asyncio
 from datetime import timedelta
 from typing import Annotated
 
-from . import env
+from . import env, kernel
 from .harness import World, probe
 from .kernel import NODE
 
@@ -45,7 +45,7 @@ class ActorState:
         return beh[min(attempt, len(beh)) - 1]
 
 
-def make_actor(state: ActorState, actor_name: str, *, with_msg_dep=False, deps=None):
+def make_actor(state: ActorState, actor_name: str, *, with_msg_dep=False, deps=None, sync=False):
     """an async actor function `actor_name(jid, ...)`"""
     sim = state.world.sim
     rec = state.world.rec
@@ -129,7 +129,39 @@ def make_actor(state: ActorState, actor_name: str, *, with_msg_dep=False, deps=N
             if state.on_end:
                 state.on_end(jid, n, node, how)
 
-    if with_msg_dep:
+    def run_sync(jid: str):
+        # a synchronous actor: runs in a (simulated) pool thread, keeps it busy for dur_us, cannot be cancelled
+        node = NODE.get()
+        n = state.attempts[jid] = state.attempts.get(jid, 0) + 1
+        beh = state.behaviour(jid, n)
+        state.inflight[node] = state.inflight.get(node, 0) + 1
+        state.max_inflight[node] = max(state.max_inflight.get(node, 0), state.inflight[node])
+        state.starts.append((sim.clock.us, sim.loop.step, jid, n, node, actor_name))
+        rec.note("actor_start", jid, attempt=n, actor=actor_name)
+        if state.on_start:
+            state.on_start(jid, n, node)
+        kernel.thread_work(beh.get("dur_us", 0))
+        how = "raise" if beh.get("do") == "raise" else "return"
+
+        def end():
+            state.inflight[node] -= 1
+            state.ends.append((sim.clock.us, sim.loop.step, jid, n, how))
+            rec.note("actor_end", jid, attempt=n, how=how)
+            if state.on_end:
+                state.on_end(jid, n, node, how)
+
+        kernel.thread_at_end(end)
+        if how == "raise":
+            raise EXC[beh.get("exc", "ValueError")](f"boom-{jid}-{n}")
+        return beh.get("value", {"jid": jid, "n": n})
+
+    if sync:
+
+        def actor(jid):
+            return run_sync(jid)
+
+        actor.__annotations__ = {"jid": str}
+    elif with_msg_dep:
 
         async def actor(jid, msg):
             return await run_body(jid, msg)
@@ -168,8 +200,8 @@ def build_router(state: ActorState, actors: list[dict]):
     router = r.Router()
     conv = {"basic": r.BasicConverter, "pydantic": r.PydanticConverter, "default": None}
     for a in actors:
-        fn = make_actor(state, a["name"], with_msg_dep=a.get("msg_dep", False))
-        router.actor(fn, name=a["name"], queue=a.get("queue", "default"),
+        fn = make_actor(state, a["name"], with_msg_dep=a.get("msg_dep", False), sync=a.get("sync", False))
+        router.actor(fn, name=a["name"], queue=a.get("queue", "default"), run_in_process=a.get("run_in_process", False),
                      retry_policy=policy_from_spec(a.get("policy")) if a.get("policy") is not None else None,
                      converter=conv[a.get("converter", "default")])
     return router
